@@ -155,7 +155,20 @@ class CFG:
   def _inlinable(self, name, use_line) -> bool:
     v, def_line, free = self._bool_temps[name]
     in_loop = bool(self._loopstack)
+    # definition and use in the same iteration of the innermost loop: only
+    # assignments between the two matter (the loop header re-binds its targets
+    # before the definition is executed again)
+    same_iter = False
+    if in_loop:
+      lp = self._loopstack[-1]
+      body = getattr(lp, 'body', [])
+      if body and body[0].lineno <= def_line <= max(getattr(b, 'end_lineno', b.lineno) for b in body):
+        same_iter = True
     for x, lns in free.items():
+      if same_iter:
+        if any(def_line < ln < use_line for ln in lns):
+          return False
+        continue
       if in_loop and len(lns) > 1:
         return False
       if any(def_line < ln < use_line or (in_loop and ln >= use_line) for ln in lns):
